@@ -17,7 +17,7 @@ ASSUMPTIONS = ["RefMIS (tsim/refmis.py) is the oracle for ESS/logZ/weights", "in
 
 def cases(seed, tier):
     sch = Sched(seed)
-    n = 480 if tier == "quick" else 40000
+    n = 480 if tier == "quick" else 24000
     out = []
     for k in range(n):
         r = random.Random(sch.np_seed(f"c05.{k}"))
